@@ -11,6 +11,7 @@ import (
 // mode 3: ack id = one of 14 boundary constants up to 2^64-1 (every digit count and both sides of 2^32, 2^53, 2^63, 10^19).
 //
 //verif:unwind 24
+//verif:qtimeout.thorough 150000
 func verifH_C09_header_fields() {
 	NS := 2
 	idMax := uint64(10000)
